@@ -25,7 +25,6 @@ class Sgp4(AnalyticalPropagator):
             orbit (Orbit)
         """
 
-        self._orbit = orbit
         tle = Tle.from_orbit(orbit)
         lines = tle.text.splitlines()
 
@@ -36,6 +35,15 @@ class Sgp4(AnalyticalPropagator):
 
         self.tle = twoline2rv(line1, line2, wgs72)
 
+        # Only a successfully converted orbit is bound, along with what the
+        # satellite record was computed from
+        self._orbit = orbit
+        self._bound_to = self._state(orbit)
+
+    @staticmethod
+    def _state(orbit):
+        return orbit.tobytes(), orbit.date, orbit.form, orbit.frame
+
     def propagate(self, date):
         """Propagate the initialized orbit
 
@@ -44,6 +52,10 @@ class Sgp4(AnalyticalPropagator):
         Return:
             Orbit
         """
+
+        if self._state(self._orbit) != self._bound_to:
+            # The orbit was modified in place since the satellite record was computed
+            self.orbit = self._orbit
 
         if type(date) is timedelta:
             date = self.orbit.date + date
